@@ -23,6 +23,7 @@ import (
 	netty "github.com/go-netty/go-netty"
 	"github.com/go-netty/go-netty/codec/format"
 	"github.com/go-netty/go-netty/codec/frame"
+	"github.com/go-netty/go-netty/transport"
 	"github.com/go-netty/go-netty/utils/pool/pbytes"
 
 	"verifharness/mock"
@@ -76,6 +77,8 @@ type ChanCase struct {
 	Swallow  bool         `json:"swallow"` // the probe's exception handler consumes every exception
 	CodecKind string      `json:"codec"` // "delim": text codec + delimiter codec ("\x00"); "lf": 2-byte length-field codec; wire parsed into frames
 	Codec    bool         `json:"-"`
+	PinPool  bool         `json:"pin_pool"` // one P, no GC (deterministic sync.Pool) without the scribbling pool user
+	WBuf     int          `json:"wbuf"` // >0: every transport call is also run through transport.NewTransport(conn, 0, wbuf) over a recording connection
 	Props    []string     `json:"props"` // which oracles to apply (empty = all)
 }
 
@@ -128,6 +131,7 @@ type chunkRun struct {
 	j     int // 1-based
 	data  []byte
 	inPos int // position in the parsed stream (-1 = absent)
+	entered int // step index at which the low-level write of this chunk was entered (w.enter released; -1 = not yet)
 }
 
 type opRun struct {
@@ -137,6 +141,7 @@ type opRun struct {
 	payload []byte
 	chunks  []*chunkRun
 	accepted int // chunks that entered the queue so far
+	enters   int // low-level writes entered so far
 	began   int // step index of the w.enter release (-1 = not begun)
 	ret     int // step index at which the call was seen returned (-1 = not yet)
 	res     string
@@ -592,6 +597,7 @@ func (w *chanWorld) parse() {
 				w.fail("C10", "modified/pool-user", fmt.Sprintf("the transport received bytes (offset %d) that another user of the buffer pool wrote into a recycled buffer", w.parsedOff))
 			}
 			w.fail("C01", "garbage", fmt.Sprintf("transport byte %d at offset %d starts no known payload", id, w.parsedOff))
+			w.foreignBytes(stream, w.parsedOff, nil, 0)
 			w.parsedOff = len(stream)
 			return
 		}
@@ -599,11 +605,23 @@ func (w *chanWorld) parse() {
 		end := w.parsedOff + len(ck.data)
 		if end > len(stream) {
 			w.fail("C01", "truncated", fmt.Sprintf("payload %s.%d truncated on the transport at offset %d", op.w, op.idx, w.parsedOff))
+			k := 0
+			for w.parsedOff+k < len(stream) && stream[w.parsedOff+k] == ck.data[k] {
+				k++
+			}
+			if w.parsedOff+k < len(stream) {
+				w.foreignBytes(stream, w.parsedOff+k, ck, k)
+			}
 			w.parsedOff = len(stream)
 			return
 		}
 		if string(stream[w.parsedOff:end]) != string(ck.data) {
 			w.fail("C01", "modified", fmt.Sprintf("payload %s.%d (%s) modified on the transport", op.w, op.idx, op.spec.Kind))
+			k := 0
+			for k < len(ck.data) && stream[w.parsedOff+k] == ck.data[k] {
+				k++
+			}
+			w.foreignBytes(stream, w.parsedOff+k, ck, k)
 			how := "differ from what the caller's buffer held when the call was made"
 			for _, b := range stream[w.parsedOff:end] {
 				if b == 0xDD {
@@ -624,6 +642,39 @@ func (w *chanWorld) parse() {
 		}
 		w.parsed = append(w.parsed, ck)
 		w.parsedOff = end
+	}
+}
+
+// foreignBytes explains why the wire at pos does not continue the payload being parsed (cur, matched for k
+// bytes; nil = a payload start was expected): body bytes are >= 64 and ids below, and every payload is random,
+// so if another payload starts here, or the bytes found here are bytes from the middle of some payload, then
+// the bytes of one message were split or the bytes of two messages are mixed - which is what C09 excludes.
+func (w *chanWorld) foreignBytes(stream []byte, pos int, cur *chunkRun, k int) {
+	who, kind := "a payload start was expected", "?"
+	if cur != nil {
+		who = fmt.Sprintf("%s.%d (%s, %d bytes) matched for %d bytes", cur.op.w, cur.op.idx, cur.op.spec.Kind, len(cur.data), k)
+		kind = cur.op.spec.Kind
+	}
+	if other := w.byID[stream[pos]]; other != nil && k > 0 {
+		w.fail("C09", "carrier="+kind+"/split", fmt.Sprintf("wire offset %d: %s, then the payload of %s.%d starts: the bytes of one message are split by another", pos, who, other.op.w, other.op.idx))
+		return
+	}
+	n := len(stream) - pos
+	if n > 8 {
+		n = 8
+	}
+	if n < 4 {
+		return
+	}
+	win := stream[pos : pos+n]
+	for _, y := range w.byID {
+		if at := bytes.Index(y.data, win); at > 0 && !(y == cur && at == k) {
+			if cur == nil {
+				kind = y.op.spec.Kind
+			}
+			w.fail("C09", "carrier="+kind+"/mixed", fmt.Sprintf("wire offset %d: %s, but the wire continues with bytes %d.. of %s.%d: bytes of different messages are mixed", pos, who, at, y.op.w, y.op.idx))
+			return
+		}
 	}
 }
 
@@ -723,6 +774,9 @@ func (w *chanWorld) allOps() []*opRun {
 
 // oracleStep evaluates the always-properties on what the real code did so far.
 func (w *chanWorld) oracleStep(noFault bool) {
+	if e := w.tr.SinkError(); e != "" {
+		w.fail("C01", "wire-order", "write-buffered transport wrapper: "+e)
+	}
 	w.parse()
 	ops := w.allOps()
 	batchCap := w.c.QSize/2 + 1
@@ -764,7 +818,8 @@ func (w *chanWorld) oracleStep(noFault bool) {
 			w.fail("C09", "carrier="+op.spec.Kind+"/multi-write", fmt.Sprintf("the %d low-level writes of %s.%d (%s) are interleaved on the wire with %s.%d", len(op.chunks), op.w, op.idx, op.spec.Kind, other.op.w, other.op.idx))
 		}
 	}
-	if w.c.QSize > 0 && unsent > w.c.QSize+batchCap {
+	// (payloads of a batch whose transport write failed are lost, not waiting: the bound is about a working transport)
+	if w.c.QSize > 0 && noFault && unsent > w.c.QSize+batchCap {
 		w.fail("C18", "bound", fmt.Sprintf("%d payloads accepted but unsent > queue %d + batch %d", unsent, w.c.QSize, batchCap))
 	}
 	// order: per writer, and returned-before-began
@@ -814,6 +869,20 @@ func (w *chanWorld) oracleStep(noFault bool) {
 				}
 				if op.ret >= 0 && op.callerNil {
 					w.fail("C11", "nil-error/"+op.spec.Kind+"/"+w.winnerArg(), fmt.Sprintf("%s.%d (%s) began after Close(%s) returned and reported (%d, nil)", op.w, op.idx, op.spec.Kind, w.winnerArg(), op.n))
+				}
+			}
+			// a call made of several low-level writes (ReadFrom chunks, reader / WriterTo messages): every
+			// low-level write entered after Close had returned must fail too
+			if len(op.chunks) > 1 && op.began <= w.closeRetStep {
+				for _, ck := range op.chunks {
+					if ck.entered > w.closeRetStep {
+						if ck.inPos >= 0 {
+							w.fail("C11", "bytes-after-close/"+op.spec.Kind+"/chunk", fmt.Sprintf("chunk %d of %s.%d (%s) was written after Close returned and its bytes reached the transport", ck.j, op.w, op.idx, op.spec.Kind))
+						}
+						if op.ret >= 0 && op.res == "ok" {
+							w.fail("C11", "nil-error/"+op.spec.Kind+"/chunk", fmt.Sprintf("%s.%d (%s) reported success (%d bytes) although its chunk %d was written after Close(%s) had returned", op.w, op.idx, op.spec.Kind, op.n, ck.j, w.winnerArg()))
+						}
+					}
 				}
 			}
 		}
@@ -891,7 +960,7 @@ func (w *chanWorld) wants(prop string) bool {
 
 func runChanCase(c *ChanCase) *ChanResult {
 	res := &ChanResult{ID: c.ID, Actions: map[string]int{}, Final: map[string]string{}}
-	if c.Scribble {
+	if c.Scribble || c.PinPool {
 		// one P, no GC: a buffer put into sync.Pool is what the next Get of that class returns
 		runtime.GOMAXPROCS(1)
 		defer debug.SetGCPercent(debug.SetGCPercent(-1))
@@ -905,6 +974,10 @@ func runChanCase(c *ChanCase) *ChanResult {
 	}
 	netty.VerifHook = func(obj interface{}, point string) { s.Gate(obj, point) }
 	w.tr = mock.NewTransport(s)
+	if c.WBuf > 0 {
+		w.tr.SinkConn = &mock.Conn{}
+		w.tr.Sink = transport.NewTransport(w.tr.SinkConn, 0, c.WBuf)
+	}
 	w.ex = mock.NewExecutor(s)
 	for i := 0; i < c.Reads; i++ {
 		w.tr.Feed(mock.ReadItem{Data: []byte{byte(i + 1)}})
@@ -955,7 +1028,7 @@ func runChanCase(c *ChanCase) *ChanResult {
 				sizes = op.Chunks
 			}
 			for j, sz := range sizes {
-				ck := &chunkRun{op: o, j: j + 1, data: payloadFor(c.Seed, id, sz), inPos: -1}
+				ck := &chunkRun{op: o, j: j + 1, data: payloadFor(c.Seed, id, sz), inPos: -1, entered: -1}
 				o.chunks = append(o.chunks, ck)
 				o.payload = append(o.payload, ck.data...)
 				w.byID[id] = ck
@@ -1057,10 +1130,22 @@ func runChanCase(c *ChanCase) *ChanResult {
 		} else if kind == "pcancel" {
 			ev.A = "env.pcancel"
 			w.parentDone = true
+			var waitingW []string
+			for _, ws := range c.Writers {
+				if s.Loc(ws.Name) == "parked" && c.QSize > 0 && c.Until {
+					waitingW = append(waitingW, ws.Name)
+				}
+			}
 			w.parentCancel()
 			if err := s.Settle(); err != nil {
 				res.HarnessErr = err.Error()
 				break
+			}
+			// a blocking-mode writer that was waiting for queue space returns when the channel's own context ends
+			for _, n := range waitingW {
+				if s.Loc(n) == "parked" {
+					w.fail("C18", "channel-end-ignored", fmt.Sprintf("%s keeps waiting for queue space (%s) although the channel's context ended", n, s.ParkedStatus(n)))
+				}
 			}
 		} else if kind == "cancel" {
 			ev.A = "env.cancel"
@@ -1111,6 +1196,12 @@ func runChanCase(c *ChanCase) *ChanResult {
 					if op.ret < 0 {
 						if op.began < 0 {
 							op.began = w.step
+						}
+						if gate == "w.enter" {
+							if op.enters < len(op.chunks) {
+								op.chunks[op.enters].entered = w.step
+							}
+							op.enters++
 						}
 						break
 					}
@@ -1177,6 +1268,10 @@ func runChanCase(c *ChanCase) *ChanResult {
 				}
 			}
 			w.prevLoc[ws.Name] = loc
+			// on a queued channel in non-blocking mode the caller never does (and waits for) the transport I/O itself
+			if c.QSize > 0 && !c.Until && (loc == "t.writev" || loc == "t.flush" || loc == "t.write") {
+				w.fail("C18", "nonblocking-inline-io", fmt.Sprintf("%s (a write call in non-blocking mode) stands at %s: the call itself waits for the transport", ws.Name, loc))
+			}
 		}
 		res.Actions[ev.A]++
 		res.Sched = append(res.Sched, []string{kind, proc, ev.A})
@@ -1447,6 +1542,10 @@ func (w *chanWorld) pickRandom(rnd *rand.Rand, atGate []string, prio map[string]
 		switch {
 		case len(writers) > 0 && rnd.Intn(10) != 0:
 			proc = pick(writers)
+		case r.Policy == "stall" && w.winnerPolls > 10 && len(closers) > 0 && len(senders) > 0:
+			// the closer has given up waiting: from here on the stalled sender's (failing) transport call
+			// may land anywhere in the rest of the close sequence
+			proc = pick(append(append([]string{}, closers...), senders...))
 		case len(closers) > 0 && (r.Policy == "stall" || rnd.Intn(3) != 0):
 			proc = pick(closers)
 		case len(senders) > 0:
